@@ -235,6 +235,13 @@ def plan(tier, prop):
                     items.append({"op": "cli_holdout", "params": {"fraction": f}, "layout": lay, "n_obs": 0, "pool": "combo", "bound": 2})
                 for stale in ("test", "train"):
                     items.append({"op": "cli_holdout", "params": {"fraction": 0.5, "stale": stale}, "layout": lay, "n_obs": 0, "pool": "combo", "bound": 1})
+    if prop == "C11":
+        # count sweep: one unobserved plate of every size 1..20 (a second one of size 21-n for n <= 10) x every fraction k/20,
+        # default random answers (the count does not depend on the draw)
+        for n in range(1, 21):
+            for k in range(0, 21):
+                lay = [[n]] if n > 10 or (n + k) % 2 else [[n], [21 - n]]
+                items.append({"op": "holdout_plate", "params": {"fraction": k / 20}, "layout": lay, "n_obs": 2 * (k % 2), "pool": "mixed", "bound": 0})
     # operation objects that were already used once (state kept on the object between calls)
     reuse = []
     for it in items:
